@@ -82,6 +82,18 @@ func (c c19Client) netip() netip.Addr {
 	return a
 }
 
+// c19GrpTransport remembers (per scenario) the first query that got no DNS answer at all: this kind is about WHICH
+// answer a group is served; a lost datagram or a refused connection on an overloaded machine is not its matter (hits that
+// are not answered are the matter of kinds prefetch / prefetchfan), so such a scenario is skipped and counted.
+type c19GrpTransport struct{ first atomic.Value }
+
+func (t *c19GrpTransport) note(h c19Hit) c19Hit {
+	if h.status != "ok" {
+		t.first.CompareAndSwap(nil, h.status)
+	}
+	return h
+}
+
 func (c c19Client) query(env *hx.RouterEnv, wire []byte, id uint16) c19Hit {
 	q := append([]byte(nil), wire...)
 	binary.BigEndian.PutUint16(q, id)
@@ -226,6 +238,14 @@ func runPrefetchGrp(id string, parts []string) string {
 	bad := func(why string) string { return "timing=bad why=" + why }
 	var idc atomic.Uint32
 	nextID := func() uint16 { return uint16(0x2000 + idc.Add(1)) }
+	tr := &c19GrpTransport{}
+	ask := func(c c19Client, wire []byte) c19Hit { return tr.note(c.query(env, wire, nextID())) }
+	lost := func() (string, bool) {
+		if v := tr.first.Load(); v != nil {
+			return "timing=bad why=transport:" + strings.ReplaceAll(v.(string), " ", "_"), true
+		}
+		return "", false
+	}
 
 	// ---- setup: every "fresh" other group gets its own entry C by a real miss of its first client
 	env.SetBehaviour(key, reply(9, 0))
@@ -234,7 +254,7 @@ func runPrefetchGrp(id string, parts []string) string {
 	for _, o := range others {
 		if o.fresh {
 			nFresh++
-			if c19GMark(o.clients[0].query(env, q, nextID())) == "C" {
+			if c19GMark(ask(o.clients[0], q)) == "C" {
 				gotC++
 			}
 		}
@@ -276,14 +296,14 @@ func runPrefetchGrp(id string, parts []string) string {
 					defer wg.Done()
 					if o.fresh || o.window {
 						// its own entry; a "window" group's own refresh turns it into B at some point
-						if m := c19GMark(c.query(env, q, nextID())); m == "C" || (o.window && freshOK == nil && m == "B") {
+						if m := c19GMark(ask(c, q)); m == "C" || (o.window && freshOK == nil && m == "B") {
 							if freshOK != nil {
 								freshOK.Add(1)
 							}
 						} else {
 							churnBad.Add(1)
 						}
-					} else if c19GMark(c.query(env, bg, nextID())) != "E" {
+					} else if c19GMark(ask(c, bg)) != "E" {
 						churnBad.Add(1)
 					}
 				}(o, c)
@@ -298,7 +318,7 @@ func runPrefetchGrp(id string, parts []string) string {
 		wg.Add(1)
 		go func(i int) {
 			defer wg.Done()
-			hits[i] = hit[i].query(env, q, nextID())
+			hits[i] = ask(hit[i], q)
 		}(i)
 	}
 	otherRound(&wg, &freshOK)
@@ -317,6 +337,9 @@ func runPrefetchGrp(id string, parts []string) string {
 	}
 	out += fmt.Sprintf(" ans=%d/%d oth=%d/%d", nA, len(hit), freshOK.Load(), mFresh)
 
+	if r, bad := lost(); bad {
+		return r
+	}
 	if mode == "slow" {
 		time.Sleep(150 * time.Millisecond)
 		upMid := len(env.PeekQueries(key))
@@ -331,7 +354,7 @@ func runPrefetchGrp(id string, parts []string) string {
 			var w sync.WaitGroup
 			otherRound(&w, nil)
 			w.Wait()
-			time.Sleep(5 * time.Millisecond)
+			time.Sleep(25 * time.Millisecond)
 		}
 	}
 	inflEnd := c19WaitIdle(env, 4*time.Second)
@@ -376,7 +399,7 @@ func runPrefetchGrp(id string, parts []string) string {
 	var ls []string
 	if mode == "slow" || mode == "fast" {
 		for _, c := range later {
-			ls = append(ls, fmtHit(c.query(env, q, nextID())))
+			ls = append(ls, fmtHit(ask(c, q)))
 		}
 		time.Sleep(30 * time.Millisecond)
 		out += fmt.Sprintf(" later=%s up_after=%d", strings.Join(ls, ","), len(env.PeekQueries(key)))
@@ -387,12 +410,12 @@ func runPrefetchGrp(id string, parts []string) string {
 			return bad("scenario-late")
 		}
 		env.SetBehaviour(key, reply(8, 0))
-		ls = append(ls, fmtHit(later[0].query(env, q, nextID())))
+		ls = append(ls, fmtHit(ask(later[0], q)))
 		time.Sleep(30 * time.Millisecond)
 		c19WaitIdle(env, 4*time.Second)
 		up2 := len(env.PeekQueries(key))
 		for _, c := range later[1:] {
-			ls = append(ls, fmtHit(c.query(env, q, nextID())))
+			ls = append(ls, fmtHit(ask(c, q)))
 		}
 		out += fmt.Sprintf(" later=%s up2=%d", strings.Join(ls, ","), up2)
 	}
@@ -404,13 +427,16 @@ func runPrefetchGrp(id string, parts []string) string {
 	for _, o := range others {
 		s := ""
 		for _, c := range o.clients {
-			s += c19GMark(c.query(env, q, nextID()))
+			s += c19GMark(ask(c, q))
 		}
 		oa = append(oa, s)
 	}
 	time.Sleep(30 * time.Millisecond)
 	othUp := len(env.PeekQueries(key))
-	final := later[0].query(env, q, nextID())
+	final := ask(later[0], q)
+	if r, bad := lost(); bad {
+		return r
+	}
 	return out + fmt.Sprintf(" oth_after=%s oth_up=%d final=%s infl_final=%d churn_bad=%d", strings.Join(orDash(oa), ","),
 		othUp, fmtHit(final), env.R.VerifPrefetchInflight(), churnBad.Load())
 }
